@@ -37,7 +37,7 @@ type C16Op struct {
 }
 
 type C16Case struct {
-	Max     int      `json:"max"` // constructor argument
+	Max     int      `json:"max"`     // constructor argument
 	Queries []string `json:"queries"` // Go-quoted
 	Ops     []C16Op  `json:"ops"`
 }
